@@ -6,9 +6,9 @@
    [cand] is universally quantified. *)
 From Coq Require Import List Bool Arith QArith Lia.
 Import ListNotations.
-Require Import Model.C14_Finder Proofs.C14_FinderProofs.
+Require Import Model.C14_Finder Proofs.C14_FinderProofs Proofs.C14_QuadProofs.
 Require Import Gen.C14GenAffine Gen.C14GenTri Gen.C14GenTet Gen.C14GenSplits Gen.C14GenProbes Gen.C14GenLine.
-Require Import Dyn.C14_TieGeom Dyn.C14_TieFinder Dyn.C14_TieSplit Dyn.C14_TieProbes Dyn.C14_TieLine.
+Require Import Dyn.C14_TieGeom Dyn.C14_TieFinder Dyn.C14_TieSplit Dyn.C14_TieProbes Dyn.C14_TieLine Dyn.C14_TieQuad.
 Local Open Scope Q_scope.
 
 (* finder_sound: for every mesh, every batch of points, every candidate list and every slack eps, each returned cell c
@@ -106,9 +106,44 @@ Theorem C14_split_certificates_partial :
 Proof. exact (conj quad_split_certificate (conj hex_split_certificate wedge_split_certificate)). Qed.
 Print Assumptions C14_split_certificates_partial.
 
+(* ---- quadrilaterals: the tiling step, formalised.  For every strictly convex quadrilateral v0 v1 v2 v3 (cyclic order,
+   orientation s = +-1, the four corner triangles have strictly that orientation) and every point p:
+   p is in the closed quadrilateral (the four edge functionals are >= 0) iff it is in the triangle [0,1,3] or in the
+   triangle [1,2,3] of the to_meshtri split; a point in both lies on the diagonal v1 v3. *)
+Theorem C14_quad_split_tiles : forall x0 y0 x1 y1 x2 y2 x3 y3 s : Q, s * s == 1 ->
+    0 < s * orient x0 y0 x1 y1 x2 y2 -> 0 < s * orient x0 y0 x1 y1 x3 y3 ->
+    0 < s * orient x0 y0 x2 y2 x3 y3 -> 0 < s * orient x1 y1 x2 y2 x3 y3 ->
+    forall px py,
+      (in_quad x0 y0 x1 y1 x2 y2 x3 y3 s px py <-> in_T013 x0 y0 x1 y1 x3 y3 s px py \/ in_T123 x1 y1 x2 y2 x3 y3 s px py) /\
+      (in_T013 x0 y0 x1 y1 x3 y3 s px py -> in_T123 x1 y1 x2 y2 x3 y3 s px py -> orient x1 y1 x3 y3 px py == 0).
+Proof. exact quad_split_tiles. Qed.
+Print Assumptions C14_quad_split_tiles.
+
+(* quad_finder_complete / quad_finder_sound: on every mesh of strictly convex quadrilaterals (any orientation per cell),
+   with the split mesh built from the REGENERATED selections (simplex k = triangle k / nt of cell k mod nt, the layout
+   proved by C14_split_index_map) and the regenerated triangle inside test: every batch of points each lying in some
+   cell is located (every candidate list, every slack >= 0), and with slack 0 every returned cell contains its point *)
+Theorem C14_quad_finder_complete : forall (s : nat -> Q) (quad : nat -> nat -> nat -> Q) (nt : nat),
+    convex_quads s quad nt -> forall eps cand xs, 0 <= eps -> (0 < nt)%nat ->
+    (forall x, In x xs -> exists c, (c < nt)%nat /\ in_quad_cell s quad c x) ->
+    exists r, gen_quad_finder (tri_inside_cell eps (split_quad quad nt)) nt cand xs = Some r /\ Forall (fun c => c < nt)%nat r.
+Proof. exact quad_finder_complete. Qed.
+Print Assumptions C14_quad_finder_complete.
+
+Theorem C14_quad_finder_sound : forall (s : nat -> Q) (quad : nat -> nat -> nat -> Q) (nt : nat),
+    convex_quads s quad nt -> forall cand xs r, (0 < nt)%nat -> (forall k, In k cand -> (k < 2 * nt)%nat) ->
+    gen_quad_finder (tri_inside_cell 0 (split_quad quad nt)) nt cand xs = Some r ->
+    Forall2 (fun x c => (c < nt)%nat /\ in_quad_cell s quad c x) xs r.
+Proof. exact quad_finder_sound. Qed.
+Print Assumptions C14_quad_finder_sound.
+
 (* the finder of a non-simplex mesh returns cell numbers < nt that are (simplex found by a sound location) mod nt.
-   PARTIAL (full statement: the returned cell contains the point, and a cell is returned for every point of the domain —
-   needs the tiling above for each physical cell). *)
+   For quadrilaterals the full statement is C14_quad_finder_sound / _complete above.  PARTIAL for hexahedra and prisms
+   (full statement: the returned cell contains the point, and a cell is returned for every point of the domain).
+   What is ASSUMED there and not formalised: (i) the six (three) tetrahedra of the certificate — vertices of the cell,
+   non-degenerate, volumes adding up to the cell's, pairwise separated — tile the reference cube (prism);
+   (ii) tiling is preserved by the affine map onto a parallelepiped (affine image of the prism); (iii) nothing is
+   claimed for trilinear hexahedra that are not parallelepipeds (planar-face frusta and non-planar faces: search only). *)
 Theorem C14_nonsimplex_finder_sound_partial :
   forall (P : Type) (inside : nat -> P -> bool) (nt : nat) cand xs r, (0 < nt)%nat ->
     (gen_quad_finder inside nt cand xs = Some r \/ gen_hex_finder inside nt cand xs = Some r \/ gen_wedge_finder inside nt cand xs = Some r) ->
@@ -151,6 +186,30 @@ Theorem C14_probes_spec : forall (cells : list nat) (comp : nat) (phi : nat -> n
 Proof. exact gen_probes_spec. Qed.
 Print Assumptions C14_probes_spec.
 
+(* probes on a basis RESTRICTED to the cells tind (dof table element_dofs[:, tind]): the regenerated column map sends every
+   located global cell to a position of tind holding that cell (and the call fails if a located cell is not in tind), so
+   row r of probes(x) @ y again uses the dofs of the located GLOBAL cell — any tind (any order, repetitions), any points *)
+Theorem C14_probes_spec_restricted : forall (edofs : list (list nat)) (nelems : nat) (ti cells cells' : list nat)
+    (comp : nat) (phi : nat -> nat -> nat -> Q) (y : nat -> Q) (r : nat),
+    gen_probe_restrict nelems (Some ti) cells = Some cells' -> (0 < length cells)%nat -> (r < comp * length cells)%nat ->
+    coo_apply (gen_probe_rows (length edofs) comp (length cells)) (gen_probe_cols (restrict_edofs edofs ti) cells' comp)
+              (gen_probe_vals (length edofs) comp (length cells) phi) y r
+    == qsum (map (fun k => phi k (r / length cells)%nat (r mod length cells)%nat
+                           * y (nth (nth (r mod length cells) cells 0%nat) (nth k edofs []) 0%nat)) (seq 0 (length edofs))).
+Proof. exact gen_probes_spec_restricted. Qed.
+Print Assumptions C14_probes_spec_restricted.
+
+Theorem C14_restricted_column_map : forall nelems ti cells,
+    (forall cells', gen_probe_restrict nelems (Some ti) cells = Some cells' ->
+       Forall2 (fun c c' => (c' < length ti)%nat /\ nth c' ti 0%nat = c) cells cells') /\
+    (forall c, In c cells -> ~ In c ti -> gen_probe_restrict nelems (Some ti) cells = None) /\
+    gen_probe_restrict nelems None cells = Some cells.
+Proof.
+  intros nelems ti cells. split; [intros cells'; apply gen_probe_restrict_spec|].
+  split; [intros c; apply gen_probe_restrict_outside | apply gen_probe_unrestricted].
+Qed.
+Print Assumptions C14_restricted_column_map.
+
 (* non-vacuity: two triangles (0,0),(4,0),(0,4) and (4,0),(4,4),(0,4); a useless candidate list; three points — a
    vertex, an edge point, an interior point — are located (the vertex misses the candidate, so ALL points are redone
    exhaustively and the edge point gets cell 0; without the vertex the edge point gets the candidate cell 1); adding the
@@ -168,6 +227,27 @@ Proof.
   split; intros H; vm_compute in H; discriminate H.
 Qed.
 Print Assumptions C14_instance.
+
+Example C14_restrict_instance :
+  gen_probe_restrict 6 (Some [4; 1; 5]%nat) [5; 4; 4; 1]%nat = Some [2; 0; 0; 1]%nat /\
+  gen_probe_restrict 6 (Some [4; 1; 5]%nat) [5; 3]%nat = None.
+Proof. vm_compute. split; reflexivity. Qed.
+Print Assumptions C14_restrict_instance.
+
+(* non-vacuity of the quadrilateral theorems: a counter-clockwise trapezoid and a clockwise kite satisfy convex_quads; the
+   finder over the regenerated split locates a vertex, a point of the diagonal and an interior point, and raises outside *)
+Definition ex_quads (c i v : nat) : Q :=
+  nth v (nth i (nth c [[[0; 4; 3; 0]; [0; 0; 2; 2]]; [[4; 6; 8; 6]; [0; 3; 0; (-1)]]] []) []) 0.
+Definition ex_sign (c : nat) : Q := match c with 0%nat => 1 | _ => -1 end.
+Example C14_quad_instance :
+  convex_quads ex_sign ex_quads 2 /\
+  gen_quad_finder (tri_inside_cell 0 (split_quad ex_quads 2)) 2 [3%nat] [pt 0 0; pt 2 1; pt 6 1; pt 1 1] = Some [0%nat; 0%nat; 1%nat; 0%nat] /\
+  gen_quad_finder (tri_inside_cell 0 (split_quad ex_quads 2)) 2 [3%nat] [pt 1 1; pt 9 9] = None.
+Proof.
+  split; [|split; vm_compute; reflexivity].
+  intros c Hc. destruct c as [|[|c]]; [| |lia]; vm_compute; repeat split; reflexivity.
+Qed.
+Print Assumptions C14_quad_instance.
 
 (* non-vacuity of the 1-D theorem: vertices 0 < 1 < 3 < 7 numbered 1, 3, 0, 2; cells in the order [1,3], [3,7], [0,1] *)
 Example C14_line_instance :
